@@ -493,3 +493,87 @@ func TestC10Templates(t *testing.T) {
 	}
 	run.Exhaustive()
 }
+
+// TestC10Long: formulas that read many different fields, and long paths.
+func TestC10Long(t *testing.T) {
+	run := h.Begin("C10", "long", "rapid: formulas with 40..400 items (paths of 1..12 components over a pool of 300 names and 40 member names, with '!.', $ locals, repeats of earlier paths and small generated sub-programs in between) in a comma sequence, a list, one call's arguments, a '+' chain or nested calls; oracle 1 as for random (independent walk: every name and maximal path exactly once); non-trivial: >=40 distinct fields and a path of >=5 components; distinct by text")
+	defer run.End(t)
+	h.RapidSetup(h.N(300, 60000), "c10long")
+	rapid.Check(t, func(rt *rapid.T) {
+		n := rapid.IntRange(40, 400).Draw(rt, "n")
+		var earlier []*ref.Node
+		maxDepth := 0
+		item := func() *ref.Node {
+			switch k := rapid.IntRange(0, 9).Draw(rt, "itemkind"); {
+			case k == 0 && len(earlier) > 0:
+				return earlier[rapid.IntRange(0, len(earlier)-1).Draw(rt, "again")]
+			case k == 1:
+				e := genExpr(rt, &c10Cfg, rapid.IntRange(1, 2).Draw(rt, "depth"), ref.LvAssign)
+				excludeSelfReference(e)
+				return e
+			}
+			root := fmt.Sprintf("f%d", rapid.IntRange(0, 299).Draw(rt, "root"))
+			if rapid.IntRange(0, 9).Draw(rt, "local") == 0 {
+				root = "$" + root
+			}
+			p := &ref.Node{Kind: "id", Val: root}
+			d := rapid.SampledFrom([]int{1, 1, 2, 2, 3, 4, 5, 6, 8, 12}).Draw(rt, "components")
+			if d > maxDepth {
+				maxDepth = d
+			}
+			for i := 1; i < d; i++ {
+				p = &ref.Node{Kind: "sel", Val: fmt.Sprintf("m%d", rapid.IntRange(0, 39).Draw(rt, "member")), Assert: rapid.IntRange(0, 5).Draw(rt, "assert") == 0, Kids: []*ref.Node{p}}
+			}
+			earlier = append(earlier, p)
+			return p
+		}
+		var ast *ref.Node
+		switch shape := rapid.IntRange(0, 4).Draw(rt, "shape"); shape {
+		case 0:
+			ast = item()
+			for i := 1; i < n; i++ {
+				ast = &ref.Node{Kind: "bin", Op: ",", Kids: []*ref.Node{ast, item()}}
+			}
+		case 1:
+			ast = &ref.Node{Kind: "arr"}
+			for i := 0; i < n; i++ {
+				ast.Kids = append(ast.Kids, item())
+			}
+		case 2:
+			ast = &ref.Node{Kind: "call", Kids: []*ref.Node{{Kind: "id", Val: "max"}}}
+			for i := 0; i < n; i++ {
+				ast.Kids = append(ast.Kids, item())
+			}
+		case 3:
+			ast = atLevel(item(), ref.BinLevel["+"])
+			for i := 1; i < n; i++ {
+				ast = &ref.Node{Kind: "bin", Op: "+", Kids: []*ref.Node{ast, atLevel(item(), ref.BinLevel["+"]+1)}}
+			}
+		default: // f(a, f(b, f(c, ...)))  up to 40 deep, the rest as a list
+			ast = &ref.Node{Kind: "arr"}
+			for i := 40; i < n; i++ {
+				ast.Kids = append(ast.Kids, item())
+			}
+			for i := 0; i < 40; i++ {
+				ast = &ref.Node{Kind: "call", Kids: []*ref.Node{{Kind: "id", Val: "fnV"}, item(), ast}}
+			}
+		}
+		text := ast.Text()
+		fs := expectedFields(ast)
+		cls := "accepted"
+		if fs.refused {
+			cls = "refused"
+		}
+		run.CountKey(text, len(fs.must) >= 40 && maxDepth >= 5, cls)
+		if len(text) < 600 {
+			run.Sample(cls, text)
+		}
+		if msg := checkFields(text, ast); msg != "" {
+			if len(msg) > 1500 {
+				msg = msg[:700] + " ... " + msg[len(msg)-700:]
+			}
+			run.Pending("long", "c10", fieldCase{Tree: ast}, msg)
+			rt.Fatalf("%s", msg)
+		}
+	})
+}
